@@ -261,7 +261,7 @@ class RaggedArray(IndexableArray, np.lib.mixins.NDArrayOperatorsMixin):
             # the identity as a value of the result dtype (-1 means all bits set)
             identity = np.asarray(identity).astype(ufunc.reduce(self.ravel()[:0]).dtype)
         if self.size == 0:
-            result = np.full(len(ra), fill_value=identity)
+            result = np.full(len(ra), fill_value=identity) if identity is not None else np.zeros(len(ra), dtype=self.dtype)
         else:
             # if one or more of the last rows are empty,
             # ignore these when doing reduceat and pad in the end
